@@ -92,6 +92,24 @@ def check(ctx: Ctx) -> None:
     # (the result then depends on the order in which the tags are listed, not on precedence)
     tags_p = fi.params[1] if len(fi.params) > 1 else 'tags'
     first_hit = []
+    # the same shape one call away: a helper of the module that receives the tags and returns the *first* tag it finds (a value taken from
+    # the loop variable, not a constant such as True: an any()-style helper is order independent)
+    for c in [x for x in ast.walk(fi.node) if isinstance(x, ast.Call) and isinstance(x.func, ast.Name)]:
+        pos = [i for i, a in enumerate(c.args) if isinstance(a, ast.Name) and a.id == tags_p]
+        h = next((g for g in proj.all_funcs() if g.module is fi.module and g.name == c.func.id and g is not fi), None)
+        if h is None or not pos or pos[0] >= len(h.params):
+            continue
+        hp = h.params[pos[0]]
+        for n in ast.walk(h.node):
+            if isinstance(n, ast.For) and any(isinstance(x, ast.Name) and x.id == hp for x in ast.walk(n.iter)):
+                loopvars = {x.id for x in ast.walk(n.target) if isinstance(x, ast.Name)}
+                derived = set(loopvars)
+                for a_ in ast.walk(n):
+                    if isinstance(a_, ast.Assign) and any(isinstance(x, ast.Name) and x.id in derived for x in ast.walk(a_.value)):
+                        derived |= {t.id for t in a_.targets if isinstance(t, ast.Name)}
+                if any(isinstance(r, ast.Return) and r.value is not None and any(isinstance(x, ast.Name) and x.id in derived for x in ast.walk(r.value))
+                       for r in ast.walk(n)):
+                    first_hit.append(n)
     for n in ast.walk(fi.node):
         if isinstance(n, ast.Call) and isinstance(n.func, ast.Name) and n.func.id == 'next' and n.args and isinstance(n.args[0], ast.GeneratorExp) \
                 and any(isinstance(x, ast.Name) and x.id == tags_p for g in n.args[0].generators for x in ast.walk(g.iter)):
